@@ -132,7 +132,9 @@ theorem step_SOK (sp : Spec) (w : World) (ev : Event) (h : SOK sp w.tasks) : SOK
             · exact h
             · split
               · exact h
-              · exact SOK_setTask sp _ _ h (Or.inr (Or.inr (Or.inl rfl)))
+              · split
+                · exact h
+                · exact SOK_setTask sp _ _ h (Or.inr (Or.inr (Or.inl rfl)))
     | jobRefresh t =>
       simp only [step]
       split
